@@ -269,7 +269,7 @@ def compare(c, impl, model):
         if impl.get('skipped'):
             return None
         if impl.get('timeout'):
-            if code == 1 and not is_symmetric(c['cost']):
+            if not is_symmetric(c['cost']):
                 return None      # asymmetric matrix: both sides keep "improving" for ever (outside the property's domain)
             return 'implementation did not finish in time; model: %r' % (model,)
         if code == 2:
